@@ -42,6 +42,10 @@ def run(ctx):
     gen_const.instance_obligations(ctx, 'C05', which=('tables', 'flags'))
     q = ctx.tier == 'quick'
     worldcheck.logging_independence(ctx, 'C05')
+    from tools import c04, c07
+    pbad = c04.player_definitions(ctx)
+    if pbad: ctx.violation(pbad)
+    c07.raising_subscribers(ctx)           # a failing subscriber does not keep a delivered value from being stored
     worldcheck.run_histories(ctx, 'C05', n_defsets=16 if q else 80, hist_per_set=4, sizes=[40, 120, 300] if q else [40, 120, 300, 800])
     per_version(ctx)
     recordings.payload_check(ctx, 'C05', quick_n=4)
